@@ -34,6 +34,18 @@ func die(f string, a ...any) {
 	os.Exit(2)
 }
 
+// warnings: goroutine/channel constructs the scheduler does not own. They are left as they are (real Go
+// semantics): every driver that does not run under the scheduler is unaffected, the scheduler-based
+// drivers report the list in their evidence (an execution that reaches such a construct is not fully
+// controlled). A refactoring of the repository must not break the build of all checks.
+var warnings []string
+
+func warn(f string, a ...any) {
+	w := fmt.Sprintf(f, a...)
+	warnings = append(warnings, w)
+	fmt.Fprintln(os.Stderr, "mkoverlay: warning: "+w)
+}
+
 func main() {
 	repo := flag.String("repo", "/repo", "repository root")
 	shim := flag.String("shim", "/verif/harness/shim", "shim source dir")
@@ -123,6 +135,7 @@ func main() {
 			replace[filepath.Join(lib, "verifshim", pkg, filepath.Base(s))] = s
 		}
 	}
+	os.WriteFile(filepath.Join(*out, "warnings.txt"), []byte(strings.Join(warnings, "\n")), 0o644)
 	js, _ := json.MarshalIndent(map[string]any{"Replace": replace}, "", " ")
 	if err := os.WriteFile(filepath.Join(*out, "overlay.json"), js, 0o644); err != nil {
 		die("%v", err)
@@ -218,7 +231,7 @@ func rewriteChan(fset *token.FileSet, f *ast.File, path string) int {
 				n++
 				list[i] = &ast.ExprStmt{X: &ast.CallExpr{Fun: sel("vsched", "Send"), Args: []ast.Expr{x.Chan, x.Value}}}
 			case *ast.SelectStmt:
-				die("%s: select statement is not modelled by the scheduler", fset.Position(x.Pos()))
+				warn("%s: select statement is not modelled by the scheduler (left as it is)", fset.Position(x.Pos()))
 			case *ast.RangeStmt:
 				walk(x)
 			default:
@@ -254,20 +267,20 @@ func rewriteChan(fset *token.FileSet, f *ast.File, path string) int {
 				if id, ok := x.Fun.(*ast.Ident); ok && (id.Name == "close" || id.Name == "len" || id.Name == "cap") {
 					// len/cap of slices are fine; closing a channel is not modelled
 					if id.Name == "close" {
-						die("%s: close(ch) is not modelled by the scheduler", fset.Position(x.Pos()))
+						warn("%s: close(ch) is not modelled by the scheduler (left as it is)", fset.Position(x.Pos()))
 					}
 				}
 				fixList(x.Args)
 				return true
 			case *ast.UnaryExpr:
 				if x.Op == token.ARROW {
-					die("%s: channel receive in an expression position the rewriter does not handle", fset.Position(x.Pos()))
+					warn("%s: channel receive in an expression position the rewriter does not handle (left as it is)", fset.Position(x.Pos()))
 				}
 			case *ast.ValueSpec:
 				fixList(x.Values)
 				return false
 			case *ast.GoStmt, *ast.SendStmt:
-				die("%s: go/send statement in a position the rewriter does not handle", fset.Position(nd.Pos()))
+				warn("%s: go/send statement in a position the rewriter does not handle (left as it is)", fset.Position(nd.Pos()))
 			}
 			return true
 		})
